@@ -145,7 +145,7 @@ PROPS = {
             "a connection's inbound stream is a list of non-empty segments; a read returns at most one segment; lock-step histories = no segment carries bytes of two requests (Spec/ConnKnown.v lockstep)",
             "the interleaving 'next request arrives while the unread body of an answered request is being discarded' is produced deterministically with a barrier inside the harness handler (/hold) and appears in the model as one merged segment",
             "handlers are the harness application; read_to_end is modelled with 8192-byte reads (the data delivered does not depend on read sizes, C06)",
-            "one recorded finding remains: F20c (the chunked reader's read-ahead swallows a next request that arrives while an already answered request's chunked body is still being discarded; witness C07_refuted_F20c) - such histories are not lock-step in the sense of the model (`lockstep`: no segment carries bytes of two requests); finding F21 (failed discard of a malformed body went unnoticed) is repaired (dc753b5) and C07_transcript no longer excludes it; a handler that reads PART of an unreadable body is `no demand` (body_unspecified_for)",
+            "findings F20c (7fa128d: bytes read beyond a body are carried over to the next request) and F21 (dc753b5: close when the rest of a body could not be discarded) are repaired: C07_transcript_any holds for EVERY segmentation (pipelined requests included), C07_transcript (lock-step) is its corollary; a handler that reads PART of an unreadable body is `no demand` (body_unspecified_for)",
         ],
     },
     'C16': {
